@@ -34,8 +34,9 @@ Qed.
 
 Lemma exec_spares : forall r o s s', damages r o = false -> exec o s = Some s' -> get s' r = get s r.
 Proof.
-  intros r o s s' Hd He; destruct o; simpl in *;
+  intros r o s s' Hd He; destruct o as [x|x|a b| |x|a b|x|x ok|ok|x]; simpl in *;
     try (inversion He; subst; reflexivity);
+    try (destruct ok; inversion He; subst; try reflexivity; apply get_upd_other; assumption);
     try (destruct (is_some _); inversion He; subst; try reflexivity; apply get_upd_other; assumption);
     try (destruct (get s _); inversion He; subst; apply get_upd_other; assumption);
     try (inversion He; subst; apply get_upd_other; assumption);
@@ -120,9 +121,11 @@ Proof. intros; unfold spares; apply forallb_app. Qed.
 Lemma spares_repeat : forall r o n, damages r o = false -> spares r (repeat o n) = true.
 Proof. intros r o n H; induction n; simpl; [reflexivity | rewrite H; assumption]. Qed.
 
-Lemma dump_ops_spare_bak : forall json n, spares Bak (dump_ops Target json n) = true.
+(* serialisation into memory damages no file *)
+Lemma render_ops_spare : forall r json n ok, spares r (render_ops json n ok) = true.
 Proof.
-  intros json n; unfold dump_ops; destruct (json && Nat.ltb 1 n); [|reflexivity].
+  intros r json n ok; unfold render_ops; destruct (json && Nat.ltb 1 n); [|reflexivity].
+  change (Render ok :: repeat (Render true) (n - 1)) with ([Render ok] ++ repeat (Render true) (n - 1)).
   rewrite spares_app, spares_repeat by reflexivity; reflexivity.
 Qed.
 
@@ -131,6 +134,14 @@ Lemma backup_then_write_is_backup_first : forall s post,
 Proof.
   intros s post H; eexists; eexists; split; [apply backup_ops_shape|].
   split; [apply backup_prelude_spares_target | assumption].
+Qed.
+
+Lemma backup_first_prefix : forall pre0 l,
+  spares Target pre0 = true -> backup_first l -> backup_first (pre0 ++ l).
+Proof.
+  intros pre0 l H (pre & post & -> & Hp & Hq).
+  exists (pre0 ++ pre), post; split; [rewrite <- app_assoc; reflexivity|].
+  split; [rewrite spares_app, H, Hp; reflexivity | assumption].
 Qed.
 
 (* ---- run_plan, for plans without an exception handler -------------------------------- *)
@@ -147,79 +158,79 @@ Lemma run_only_looks : forall l f k s,
 Proof.
   induction l as [|o l IH]; intros f k s H; [split; reflexivity|].
   simpl in H; apply andb_true_iff in H; destruct H as [Ho Hl].
-  destruct o; try discriminate Ho.
+  assert (He : exec o s = Some s \/ exec o s = None).
+  { destruct o as [x|x|a b| |x|a b|x|x ok|ok|x]; try discriminate Ho; [left; reflexivity|].
+    destruct ok; [left | right]; reflexivity. }
+  assert (Hf : forall m, fault_effect m o s = s).
+  { intros m; destruct o; try discriminate Ho; destruct m; reflexivity. }
   simpl; destruct f as [ft|].
   - destruct (Nat.eqb (at_k ft) k); simpl.
-    + destruct (f_mode ft); split; reflexivity.
-    + destruct (IH (Some ft) (S k) s Hl) as [A B]; split; [exact A | simpl; exact B].
-  - destruct (IH None (S k) s Hl) as [A B]; split; [exact A | exact B].
-Qed.
-
-(* the file system a handler-free plan ends in *)
-Lemma run_plan_fs_nohandler : forall p f s,
-  p_guarded p = None -> forallb only_looks (p_validate p) = true -> start_ok s ->
-  o_fs (run_plan p f s) = s \/
-  (p_refuse p = false /\
-   o_fs (run_plan p f s) = drop_tmp (r_fs (run_until_fault f (length (p_validate p)) (p_main p) s))).
-Proof.
-  intros p f s Hg Hv Hs; unfold run_plan.
-  destruct (run_only_looks (p_validate p) f 0 s Hv) as [Hfs _].
-  destruct (r_stop (run_until_fault f 0 (p_validate p) s)) eqn:Hst; simpl.
-  - destruct (p_refuse p); simpl; [left; exact Hfs|].
-    right; split; [reflexivity|]; rewrite Hfs.
-    destruct (r_stop (run_until_fault f (length (p_validate p)) (p_main p) s)) as [| |o [|]]; simpl; try reflexivity.
-    rewrite Hg; destruct f; reflexivity.
-  - left; exact Hfs.
-  - left; exact Hfs.
+    + rewrite Hf; split; [reflexivity | rewrite Ho; reflexivity].
+    + destruct He as [He|He]; rewrite He; simpl.
+      * destruct (IH (Some ft) (S k) s Hl) as [A B]; split; [exact A | rewrite Ho; exact B].
+      * split; [reflexivity | rewrite Ho; reflexivity].
+  - destruct He as [He|He]; rewrite He; simpl.
+    + destruct (IH None (S k) s Hl) as [A B]; split; [exact A | rewrite Ho; exact B].
+    + split; [reflexivity | rewrite Ho; reflexivity].
 Qed.
 
 (* ---- C17_one_copy_survives ------------------------------------------------------------- *)
 
-(* yaml-set: finite up to the fault position; positions beyond the plan never fire *)
+(* yaml-set: finite up to the fault positions; positions beyond the plan never
+   fire.  The second fault matters only where the restore path runs: elsewhere
+   the computation does not look at it. *)
 Ltac lr := vm_compute; first [left; reflexivity | right; reflexivity].
 Ltac crush_k k := do 13 (destruct k as [|k]; [lr|]); lr.
+Ltac crush_f2 f2 :=
+  first [ lr
+        | let k2 := fresh "k2" in let m2 := fresh "m2" in let kd2 := fresh "kd2" in
+          destruct f2 as [[k2 m2 kd2]|]; [destruct m2, kd2; crush_k k2 | lr] ].
+Ltac crush_k2 k f2 := do 13 (destruct k as [|k]; [crush_f2 f2|]); crush_f2 f2.
 
-Lemma set_one_copy : forall json f s,
-  get s Target = Some Orig -> one_intact_copy (o_fs (save (CSet true json) f s)).
+Lemma set_one_copy2 : forall json ok f f2 s,
+  get s Target = Some Orig -> one_intact_copy (o_fs (save2 (CSet true json ok) f f2 s)).
 Proof.
-  intros json f [t b o tm] Ht; simpl in Ht; subst t.
+  intros json ok f f2 [t b o tm] Ht; simpl in Ht; subst t.
   destruct f as [[k m kd]|].
-  - destruct json, b as [c|], m, kd; unfold one_intact_copy; crush_k k.
-  - destruct json, b as [c|]; lr.
+  - destruct json, ok, b as [c|], m, kd; unfold one_intact_copy; crush_k2 k f2.
+  - destruct json, ok, b as [c|]; unfold one_intact_copy; crush_f2 f2.
 Qed.
 
-Lemma noh_one_copy : forall p f s,
+Lemma noh_one_copy : forall p f f2 s,
   p_guarded p = None -> forallb only_looks (p_validate p) = true ->
   backup_first (p_main p) -> get s Target = Some Orig ->
-  one_intact_copy (o_fs (run_plan p f s)).
+  one_intact_copy (o_fs (run_plan2 p f f2 s)).
 Proof.
-  intros p f s Hg Hv Hb Ht; unfold run_plan.
+  intros p f f2 s Hg Hv Hb Ht; unfold run_plan2.
   destruct (run_only_looks (p_validate p) f 0 s Hv) as [Hfs _].
   assert (Hmain : forall k, one_intact_copy (drop_tmp (r_fs (run_until_fault f k (p_main p) s)))).
   { intro k; apply one_intact_drop_tmp, backup_first_safe; assumption. }
   destruct (r_stop (run_until_fault f 0 (p_validate p) s)) eqn:Hst; simpl.
   - destruct (p_refuse p); simpl; [rewrite Hfs; left; exact Ht|].
-    rewrite Hfs.
-    destruct (r_stop (run_until_fault f (length (p_validate p)) (p_main p) s)) as [| |o [|]]; simpl; try apply Hmain.
-    rewrite Hg; destruct f; apply Hmain.
+    rewrite Hfs, Hg.
+    destruct (raised (r_stop (run_until_fault f (length (p_validate p)) (p_main p) s))); simpl; apply Hmain.
   - rewrite Hfs; left; exact Ht.
   - rewrite Hfs; left; exact Ht.
 Qed.
 
-Lemma one_copy_survives : forall c f s,
-  cfg_backup c = true -> get s Target = Some Orig -> one_intact_copy (o_fs (save c f s)).
+Lemma one_copy_survives2 : forall c f f2 s,
+  cfg_backup c = true -> get s Target = Some Orig -> one_intact_copy (o_fs (save2 c f f2 s)).
 Proof.
-  intros c f s Hb Ht; destruct c as [backup json| |m backup json n|backup changed]; simpl in Hb.
-  - subst backup; apply set_one_copy; assumption.
+  intros c f f2 s Hb Ht; destruct c as [backup json ok| |m backup json n ok|backup changed]; simpl in Hb.
+  - subst backup; apply set_one_copy2; assumption.
   - discriminate.
   - destruct m; try discriminate; subst backup.
-    unfold save; apply noh_one_copy; try reflexivity; try assumption.
-    simpl; apply backup_then_write_is_backup_first.
-    simpl; apply dump_ops_spare_bak.
+    unfold save2; apply noh_one_copy; try reflexivity; try assumption.
+    simpl; apply backup_first_prefix; [apply render_ops_spare|].
+    apply backup_then_write_is_backup_first; reflexivity.
   - apply andb_true_iff in Hb; destruct Hb; subst.
-    unfold save; apply noh_one_copy; try reflexivity; try assumption.
+    unfold save2; apply noh_one_copy; try reflexivity; try assumption.
     simpl; apply backup_then_write_is_backup_first; reflexivity.
 Qed.
+
+Lemma one_copy_survives : forall c f s,
+  cfg_backup c = true -> get s Target = Some Orig -> one_intact_copy (o_fs (save c f s)).
+Proof. intros; unfold save; apply one_copy_survives2; assumption. Qed.
 
 (* ---- C17_bak_is_preimage ---------------------------------------------------------------- *)
 
@@ -236,30 +247,31 @@ Proof.
     replace (k + S (length l1)) with (S k + length l1) by lia. apply IH; assumption.
 Qed.
 
-Lemma run_dump_ops : forall json n k s,
-  let r := run_until_fault None k (dump_ops Target json n) s in
-  r_stop r = Completed /\ r_fs r = upd s Target (Some New).
+Lemma run_render_ops : forall json n k s,
+  let r := run_until_fault None k (render_ops json n true) s in
+  r_stop r = Completed /\ r_fs r = s /\ forallb only_looks (r_trace r) = true.
 Proof.
-  intros json n k s; unfold dump_ops; destruct (json && Nat.ltb 1 n).
-  - generalize (n - 1) as j; intro j; revert k s; induction j as [|j IH]; intros k [t b o tm]; simpl.
-    + split; reflexivity.
-    + destruct (IH (S k) (mkfs (Some Partial) b o tm)) as [A B]; split; [exact A|].
-      simpl in B; rewrite B; reflexivity.
-  - simpl; split; reflexivity.
+  intros json n k s; unfold render_ops; destruct (json && Nat.ltb 1 n).
+  - simpl. generalize (n - 1) as j; intro j; generalize (S k); induction j as [|j IH]; intro k'; simpl.
+    + repeat split.
+    + destruct (IH (S k')) as (A & B & C); repeat split; assumption.
+  - simpl; repeat split.
 Qed.
 
-Lemma run_plan_nofault_ok : forall p s,
+(* a serialiser that raises by itself stops the run at once *)
+Lemma run_render_fails : forall json n rest k s,
+  run_until_fault None k (render_ops json n false ++ rest) s = mkrun s [Render false] (Failed (Render false)).
+Proof. intros json n rest k s; unfold render_ops; destruct (json && Nat.ltb 1 n); reflexivity. Qed.
+
+Lemma run_plan_nofault_ok : forall p f2 s,
   p_refuse p = false -> forallb only_looks (p_validate p) = true ->
+  r_stop (run_until_fault None 0 (p_validate p) s) = Completed ->
   r_stop (run_until_fault None (length (p_validate p)) (p_main p) s) = Completed ->
-  o_status (run_plan p None s) = SOk /\
-  o_fs (run_plan p None s) = drop_tmp (r_fs (run_until_fault None (length (p_validate p)) (p_main p) s)).
+  o_status (run_plan2 p None f2 s) = SOk /\
+  o_fs (run_plan2 p None f2 s) = drop_tmp (r_fs (run_until_fault None (length (p_validate p)) (p_main p) s)).
 Proof.
-  intros p s Hr Hv Hm; unfold run_plan.
+  intros p f2 s Hr Hv Hc Hm; unfold run_plan2.
   destruct (run_only_looks (p_validate p) None 0 s Hv) as [Hfs _].
-  assert (Hc : r_stop (run_until_fault None 0 (p_validate p) s) = Completed).
-  { clear Hfs Hm; generalize 0 as k; induction (p_validate p) as [|o l IH]; intro k; [reflexivity|].
-    simpl in Hv; apply andb_true_iff in Hv; destruct Hv as [Ho Hl]; destruct o; try discriminate Ho.
-    simpl; apply IH; assumption. }
   rewrite Hc, Hr, Hfs, Hm; split; reflexivity.
 Qed.
 
@@ -267,33 +279,29 @@ Lemma main_shape : forall (pre : list op) x post, pre ++ x :: post = (pre ++ [x]
 Proof. intros; rewrite <- app_assoc; reflexivity. Qed.
 
 Lemma bak_is_preimage_holds : forall c s,
-  cfg_backup c = true -> get s Target = Some Orig ->
+  cfg_backup c = true -> cfg_dump_ok c = true -> get s Target = Some Orig ->
   o_status (save c None s) = SOk /\ bak_is_preimage (o_fs (save c None s)).
 Proof.
-  intros c [t b o tm] Hb Ht; simpl in Ht; subst t.
-  destruct c as [backup json| |m backup json n|backup changed]; simpl in Hb.
-  - subst backup; destruct json, b as [c|]; vm_compute; auto.
+  intros c [t b o tm] Hb Hok Ht; simpl in Ht; subst t.
+  destruct c as [backup json ok| |m backup json n ok|backup changed]; simpl in Hb, Hok.
+  - subst backup ok; destruct json, b as [c|]; vm_compute; auto.
   - discriminate.
-  - destruct m; try discriminate; subst backup.
+  - destruct m; try discriminate; subst backup ok.
     set (s0 := mkfs (Some Orig) b o tm).
-    assert (Hpre : r_stop (run_until_fault None 1 (backup_ops s0 ++ [OpenTrunc Target]) s0) = Completed
-                   /\ r_fs (run_until_fault None 1 (backup_ops s0 ++ [OpenTrunc Target]) s0)
-                      = mkfs (Some Partial) (Some Orig) o tm).
-    { unfold s0; destruct b; vm_compute; split; reflexivity. }
-    destruct Hpre as [Hst Hfs].
-    destruct (run_nofault_app _ (dump_ops Target json n) 1 s0 Hst) as [A B].
-    destruct (run_dump_ops json n (1 + length (backup_ops s0 ++ [OpenTrunc Target]))
-                (r_fs (run_until_fault None 1 (backup_ops s0 ++ [OpenTrunc Target]) s0))) as [C D].
-    rewrite C in B; rewrite D, Hfs in A.
-    destruct (run_plan_nofault_ok (plan_of (CMerge ToOverwrite true json n) s0) s0) as [E F];
-      [reflexivity | reflexivity | | ].
-    + change (r_stop (run_until_fault None 1 (backup_ops s0 ++ OpenTrunc Target :: dump_ops Target json n) s0)
-              = Completed).
-      rewrite main_shape; exact B.
-    + unfold save; split; [exact E|]. rewrite F.
-      change (bak_is_preimage (drop_tmp (r_fs
-                (run_until_fault None 1 (backup_ops s0 ++ OpenTrunc Target :: dump_ops Target json n) s0)))).
-      rewrite main_shape, A; split; reflexivity.
+    set (rest := backup_ops s0 ++ [OpenTrunc Target; WriteText Target]).
+    destruct (run_render_ops json n 1 s0) as (Hst & Hfs & _).
+    destruct (run_nofault_app _ rest 1 s0 Hst) as [A B]; rewrite Hfs in A, B.
+    assert (Hrest : forall k, r_stop (run_until_fault None k rest s0) = Completed
+                   /\ r_fs (run_until_fault None k rest s0) = mkfs (Some New) (Some Orig) o tm).
+    { intro k; unfold rest, s0; destruct b; vm_compute; split; reflexivity. }
+    destruct (Hrest (1 + length (render_ops json n true))) as [C D].
+    destruct (run_plan_nofault_ok (plan_of (CMerge ToOverwrite true json n true) s0) None s0) as [E F];
+      [reflexivity | reflexivity | reflexivity | | ].
+    + change (r_stop (run_until_fault None 1 (render_ops json n true ++ rest) s0) = Completed).
+      rewrite B; exact C.
+    + unfold save, save2; split; [exact E|]. rewrite F.
+      change (bak_is_preimage (drop_tmp (r_fs (run_until_fault None 1 (render_ops json n true ++ rest) s0)))).
+      rewrite A, D; split; reflexivity.
   - apply andb_true_iff in Hb; destruct Hb; subst.
     destruct b as [c|]; vm_compute; auto.
 Qed.
@@ -308,7 +316,7 @@ Lemma run_plan_refused : forall p f s,
   o_fs (run_plan p f s) = s /\ o_status (run_plan p f s) <> SOk
   /\ forallb only_looks (o_trace (run_plan p f s)) = true.
 Proof.
-  intros p f s Hr Hv; unfold run_plan.
+  intros p f s Hr Hv; unfold run_plan, run_plan2.
   destruct (run_only_looks (p_validate p) f 0 s Hv) as [Hfs Htr].
   destruct (r_stop (run_until_fault f 0 (p_validate p) s)); rewrite ?Hr; simpl;
     (split; [exact Hfs | split; [discriminate | exact Htr]]).
@@ -333,11 +341,11 @@ Proof.
 Qed.
 
 (* at the level of the save sequence alone, whatever main() does around it *)
-Lemma output_kept_by_save : forall backup json n f s,
-  get s Output <> None -> output_kept s (o_fs (save (CMerge ToOutput backup json n) f s)).
+Lemma output_kept_by_save : forall backup json n ok f s,
+  get s Output <> None -> output_kept s (o_fs (save (CMerge ToOutput backup json n ok) f s)).
 Proof.
-  intros backup json n f s Hex; unfold save.
-  destruct (run_plan_refused (plan_of (CMerge ToOutput backup json n) s) f s) as (A & _ & _);
+  intros backup json n ok f s Hex; unfold save, save2; change (run_plan2 ?p f None s) with (run_plan p f s).
+  destruct (run_plan_refused (plan_of (CMerge ToOutput backup json n ok) s) f s) as (A & _ & _);
     [simpl in *; destruct (f_output s); [reflexivity | contradiction] | reflexivity |].
   unfold output_kept; rewrite A; reflexivity.
 Qed.
@@ -346,12 +354,13 @@ Qed.
 
 Lemma set_prewrite : forall i f s st,
   set_pre i = Some st -> set_main i f s = mkout s [] st.
-Proof. intros i f s st H; unfold set_main; rewrite H; reflexivity. Qed.
+Proof. intros i f s st H; unfold set_main, set_main2; rewrite H; reflexivity. Qed.
 
 (* without an injected fault, the save of yaml-set always succeeds once the
-   file could be loaded: so a non-zero status can only come from a pre-write step *)
+   file could be loaded and the serialiser accepts the document: so a non-zero
+   status can only come from a pre-write step *)
 Lemma set_save_nofault_ok : forall c s,
-  (c = CSetStream \/ exists b j, c = CSet b j) -> get s Target <> None ->
+  (c = CSetStream \/ exists b j, c = CSet b j true) -> get s Target <> None ->
   o_status (save c None s) = SOk.
 Proof.
   intros c [t b o tm] [->|(bk & j & ->)] Ht; [reflexivity|].
@@ -360,21 +369,86 @@ Proof.
 Qed.
 
 Lemma set_failure_is_prewrite : forall i s,
-  get s Target <> None ->
+  s_dump_ok i = true -> get s Target <> None ->
   failed (o_status (set_main i None s)) ->
   untouched s (o_fs (set_main i None s)) /\ o_trace (set_main i None s) = [].
 Proof.
-  intros i s Ht Hf; unfold set_main in *.
+  intros i s Hok Ht Hf; unfold set_main, set_main2 in *.
   destruct (set_pre i) as [st|]; [split; reflexivity|].
+  rewrite Hok, andb_false_r in *.
   exfalso; apply Hf; apply set_save_nofault_ok; [|assumption].
-  unfold set_cfg; destruct (s_stream i); [left; reflexivity | right; eauto].
+  unfold set_cfg; rewrite Hok; destruct (s_stream i); [left; reflexivity | right; eauto].
+Qed.
+
+(* the pre-write verdict of yaml-set is never "ok" *)
+Lemma check_loop_not_ok : forall l, check_loop l <> Some SOk.
+Proof. induction l as [|[] l IH]; simpl; try discriminate; exact IH. Qed.
+
+Lemma first_some_in : forall (A : Type) (l : list (option A)) x, first_some l = Some x -> In (Some x) l.
+Proof.
+  intros A l x; induction l as [|a l IH]; simpl; [discriminate|].
+  destruct a as [a|]; intro H; [left; exact H | right; apply IH; exact H].
+Qed.
+
+Lemma set_pre_not_ok : forall i, set_pre i <> Some SOk.
+Proof.
+  intros i H; unfold set_pre in H; apply first_some_in in H; simpl in H.
+  destruct H as [H|[H|[H|[H|[H|[H|[H|[H|[]]]]]]]]].
+  - destruct (s_usage_ok i); discriminate.
+  - destruct (s_args_ok i); discriminate.
+  - destruct (s_value_file i) as [[|]|]; discriminate.
+  - destruct (s_loaded i); discriminate.
+  - destruct (s_get i); try destruct (s_must_exist i); discriminate.
+  - destruct (s_check i) as [l|]; [|discriminate]. exact (check_loop_not_ok _ H).
+  - destruct (s_saveto i) as [r|]; [|discriminate].
+    destruct (Nat.ltb 1 _); [discriminate|]; destruct (Nat.eqb _ 0); [discriminate|]; destruct r; discriminate.
+  - unfold apply_phase in H; destruct (s_action i), (s_apply i); try discriminate; destruct (s_whole_doc i); discriminate.
+Qed.
+
+(* EVERY non-zero end of yaml-set in which no I/O call fails -- a pre-write
+   step, or a document the serialiser refuses -- leaves the target and the
+   output name as they were; no backup file has appeared (the restore path
+   removes the one just made; a stale one goes with it). *)
+Lemma set_failure_keeps_target : forall i s,
+  get s Target = Some Orig -> start_ok s ->
+  failed (o_status (set_main i None s)) ->
+  target_kept_nothing_appeared s (o_fs (set_main i None s)).
+Proof.
+  intros i [t b o tm] Ht Hs Hf; simpl in Ht; unfold start_ok in Hs; simpl in Hs; subst t tm.
+  unfold set_main, set_main2 in *.
+  destruct (set_pre i) as [st|]; [repeat split; left; reflexivity|].
+  destruct (s_stream i) eqn:Hstr, (s_dump_ok i) eqn:Hok; simpl andb in *; cbv iota in *.
+  - exfalso; apply Hf; unfold set_cfg; rewrite Hstr; reflexivity.
+  - repeat split; left; reflexivity.
+  - exfalso; apply Hf; unfold set_cfg; rewrite Hstr, Hok.
+    destruct (s_backup i), (s_json i), b; reflexivity.
+  - unfold set_cfg in *; rewrite Hstr, Hok in *.
+    destruct (s_backup i), (s_json i), b as [c|]; vm_compute; repeat split; auto.
+Qed.
+
+(* a document JSON cannot represent: found by json.dumps before any file is
+   touched, whatever fault is armed *)
+Lemma set_unserialisable_json_untouched : forall i f f2 s,
+  s_dump_ok i = false -> s_json i = true -> start_ok s ->
+  let o := set_main2 i f f2 s in
+  untouched s (o_fs o) /\ failed (o_status o) /\ forallb only_looks (o_trace o) = true.
+Proof.
+  intros i f f2 [t b o tm] Hok Hj Hs; unfold start_ok in Hs; simpl in Hs; subst tm.
+  unfold set_main2; destruct (set_pre i) as [st|] eqn:Hp.
+  { simpl; repeat split; intro E; subst st; exact (set_pre_not_ok i Hp). }
+  rewrite Hok; destruct (s_stream i) eqn:Hstr; simpl andb; cbv iota.
+  { simpl; repeat split; discriminate. }
+  unfold set_cfg; rewrite Hstr, Hok, Hj.
+  destruct f as [[k m kd]|].
+  - destruct (s_backup i), b as [c|], k as [|k], m; vm_compute; repeat split; try discriminate; reflexivity.
+  - destruct (s_backup i), b as [c|]; vm_compute; repeat split; try discriminate; reflexivity.
 Qed.
 
 Lemma run_plan_validate_only : forall pv f s,
   p_main pv = [] -> forallb only_looks (p_validate pv) = true -> start_ok s ->
   untouched s (o_fs (run_plan pv f s)) /\ forallb only_looks (o_trace (run_plan pv f s)) = true.
 Proof.
-  intros [v r m g h] f s Hm Hv Hs; simpl in Hm, Hv; subst m; unfold run_plan; simpl.
+  intros [v r m g h] f s Hm Hv Hs; simpl in Hm, Hv; subst m; unfold run_plan, run_plan2; simpl.
   destruct (run_only_looks v f 0 s Hv) as [A B].
   destruct (r_stop (run_until_fault f 0 v s)); simpl; try (split; assumption).
   destruct r; simpl; [split; assumption|].
@@ -405,32 +479,38 @@ Qed.
 
 (* without an injected fault a failing yaml-merge changed nothing, provided a
    requested backup has something to copy *)
-Lemma dump_ops_complete : forall r json n k s,
-  r_stop (run_until_fault None k (dump_ops r json n) s) = Completed.
-Proof.
-  intros r json n k s; unfold dump_ops; destruct (json && Nat.ltb 1 n); [|reflexivity].
-  generalize (n - 1) as j; intro j; revert k s; induction j as [|j IH]; intros k s; simpl;
-    [reflexivity | apply IH].
-Qed.
-
 Lemma merge_write_nofault_completes : forall m backup json n s,
   (m = ToOverwrite -> backup = true -> get s Target <> None) ->
-  let p := plan_of (CMerge m backup json n) s in
+  let p := plan_of (CMerge m backup json n true) s in
   r_stop (run_until_fault None (length (p_validate p)) (p_main p) s) = Completed.
 Proof.
   intros m backup json n [t b o tm] Hbk; destruct m; simpl p_validate; simpl p_main; simpl length.
   - reflexivity.
-  - change (OpenTrunc Output :: dump_ops Output json n) with ([OpenTrunc Output] ++ dump_ops Output json n).
-    destruct (run_nofault_app [OpenTrunc Output] (dump_ops Output json n) 1 (mkfs t b o tm) eq_refl) as [_ B].
-    rewrite B; apply dump_ops_complete.
-  - rewrite main_shape.
-    assert (Hst : r_stop (run_until_fault None 1 (opt_backup backup (mkfs t b o tm) ++ [OpenTrunc Target])
-                            (mkfs t b o tm)) = Completed).
-    { destruct backup; [|reflexivity].
-      specialize (Hbk eq_refl eq_refl); simpl in Hbk; destruct t; [|contradiction].
-      destruct b; reflexivity. }
-    destruct (run_nofault_app _ (dump_ops Target json n) 1 _ Hst) as [_ B].
-    rewrite B; apply dump_ops_complete.
+  - destruct (run_render_ops json n 1 (mkfs t b o tm)) as (Hst & Hfs & _).
+    destruct (run_nofault_app _ [OpenTrunc Output; WriteText Output] 1 _ Hst) as [_ B].
+    rewrite B, Hfs; reflexivity.
+  - destruct (run_render_ops json n 1 (mkfs t b o tm)) as (Hst & Hfs & _).
+    destruct (run_nofault_app _ (opt_backup backup (mkfs t b o tm) ++ [OpenTrunc Target; WriteText Target]) 1 _ Hst)
+      as [_ B].
+    rewrite B, Hfs.
+    destruct backup; [|reflexivity].
+    specialize (Hbk eq_refl eq_refl); simpl in Hbk; destruct t; [|contradiction].
+    destruct b; reflexivity.
+Qed.
+
+(* a result the serialiser refuses: the run stops at the first rendering call,
+   before the backup and before the output file is opened *)
+Lemma merge_render_fails_untouched : forall m backup json n f2 s,
+  start_ok s -> is_stdout m = false ->
+  let o := run_plan2 (plan_of (CMerge m backup json n false) s) None f2 s in
+  untouched s (o_fs o) /\ failed (o_status o) /\ forallb only_looks (o_trace o) = true.
+Proof.
+  intros m backup json n f2 [t b o tm] Hs Hm; unfold start_ok in Hs; simpl in Hs; subst tm.
+  destruct m; [discriminate Hm | |]; unfold run_plan2; simpl p_validate; simpl p_refuse; simpl p_main;
+    simpl p_guarded; simpl length; simpl run_until_fault; cbv iota beta.
+  - destruct (is_some o || backup); simpl; [repeat split; discriminate|].
+    rewrite run_render_fails; simpl; repeat split; discriminate.
+  - rewrite run_render_fails; simpl; repeat split; discriminate.
 Qed.
 
 Lemma merge_failure_is_prewrite : forall i s,
@@ -451,14 +531,114 @@ Proof.
   { apply run_plan_validate_only; [reflexivity | exact Hv | exact Hs]. }
   destruct (o_status (run_plan pv None s)) eqn:Hst; [|exact Hpv|exact Hpv].
   rewrite Hp in *.
-  exfalso; apply Hf; clear Hf.
-  assert (Hnr : p_refuse p = false).
-  { destruct (p_refuse p) eqn:E; [|reflexivity].
-    destruct (run_plan_refused pv None s) as (_ & B & _);
-      [reflexivity | exact Hv |].
-    contradiction B. }
-  destruct (run_plan_nofault_ok p s Hnr) as [E _]; [apply merge_validate_only_looks | | exact E].
-  apply merge_write_nofault_completes; exact Hbk.
+  destruct (is_stdout (m_mode i)) eqn:Hso, (m_dump_ok i) eqn:Hok; simpl andb in *; cbv iota in *;
+    try exact Hpv.
+  - (* stdout, serialiser fine *)
+    exfalso; apply Hf; clear Hf Hpv Hv.
+    subst pv p; unfold merge_cfg, run_plan, run_plan2 in *.
+    destruct (m_mode i); try discriminate Hso; simpl in *.
+    destruct (m_backup i); [discriminate Hst | reflexivity].
+  - (* a file, serialiser fine: the write completes *)
+    exfalso; apply Hf; clear Hf.
+    assert (Hnr : p_refuse p = false).
+    { destruct (p_refuse p) eqn:E; [|reflexivity].
+      destruct (run_plan_refused pv None s) as (_ & B & _);
+        [reflexivity | exact Hv |].
+      contradiction B. }
+    destruct (run_plan_nofault_ok p None s Hnr) as [E _];
+      [apply merge_validate_only_looks | | | exact E].
+    + unfold p, merge_cfg; destruct (m_mode i); reflexivity.
+    + unfold p, merge_cfg; rewrite Hok; apply merge_write_nofault_completes; exact Hbk.
+  - (* a file, the serialiser refuses the result *)
+    unfold p, merge_cfg, run_plan; rewrite Hok.
+    destruct (merge_render_fails_untouched (m_mode i) (m_backup i) (m_json i) (m_outdocs i) None s Hs Hso)
+      as (A & _ & C); split; assumption.
+Qed.
+
+(* ... whatever fault is armed *)
+Lemma merge_unserialisable_untouched : forall i s,
+  start_ok s -> m_dump_ok i = false ->
+  let o := merge_main i None s in
+  untouched s (o_fs o) /\ failed (o_status o) /\ forallb only_looks (o_trace o) = true.
+Proof.
+  intros i s Hs Hok.
+  destruct (merge_pre i) as [st|] eqn:Hp; [exact (merge_prewrite i None s st Hs Hp)|].
+  unfold merge_main.
+  destruct (m_usage_ok i); [simpl negb; cbv iota zeta | simpl; split; [reflexivity | split; [discriminate | reflexivity]]].
+  set (p := plan_of (merge_cfg i) s).
+  set (pv := mkplan (p_validate p) (p_refuse p || negb (m_args_ok i)) [] None []).
+  assert (Hv : forallb only_looks (p_validate pv) = true) by apply merge_validate_only_looks.
+  assert (Hpv : untouched s (o_fs (run_plan pv None s)) /\ forallb only_looks (o_trace (run_plan pv None s)) = true).
+  { apply run_plan_validate_only; [reflexivity | exact Hv | exact Hs]. }
+  destruct Hpv as [A B].
+  destruct (o_status (run_plan pv None s)) eqn:Hst;
+    [| split; [exact A | split; [rewrite Hst; discriminate | exact B]]
+     | split; [exact A | split; [rewrite Hst; discriminate | exact B]]].
+  rewrite Hp, Hok; destruct (is_stdout (m_mode i)) eqn:Hso; simpl andb; cbv iota.
+  - simpl; split; [exact A | split; [discriminate | exact B]].
+  - unfold p, merge_cfg, run_plan; rewrite Hok.
+    apply merge_render_fails_untouched; assumption.
+Qed.
+
+(* ---- the restore path of yaml-set's YAML save ------------------------------------------- *)
+
+(* the dump step fails -- by itself, or by an injected failure of any mode and any
+   Exception class -- and no call of the restore path fails: the target holds
+   the complete original bytes again, the needless backup is gone, the run ends
+   non-zero.  For every start state, with or without --backup. *)
+Lemma dump_failure_restores : forall backup ok f s,
+  get s Target = Some Orig -> dump_step_fails backup ok f s ->
+  let o := save (CSet backup false ok) f s in
+  get (o_fs o) Target = Some Orig /\ failed (o_status o)
+  /\ get (o_fs o) Output = get s Output
+  /\ get (o_fs o) Bak = (if backup then None else get s Bak)
+  /\ get (o_fs o) Tmp = None.
+Proof.
+  intros backup ok f [t b o tm] Ht H; simpl in Ht; subst t.
+  destruct H as [[-> ->] | ([k m kd] & -> & Hk & Hex)].
+  - destruct backup, b as [c|]; vm_compute; repeat split; discriminate.
+  - unfold is_exception in Hex; simpl in Hk, Hex.
+    destruct backup, b as [c|]; vm_compute in Hk; subst k;
+      destruct ok, m, kd; try (exfalso; apply Hex; reflexivity);
+      vm_compute; repeat split; discriminate.
+Qed.
+
+(* the status of such a run: 3 through log.critical for an AssertionError, the
+   traceback's 1 for everything else *)
+Lemma dump_failure_status : forall backup ok f s,
+  get s Target = Some Orig -> dump_step_fails backup ok f s ->
+  o_status (save (CSet backup false ok) f s) =
+    match f with
+    | Some ft => match f_kind ft with FAssert => SExit 3 | _ => SCrash end
+    | None => SCrash
+    end.
+Proof.
+  intros backup ok f [t b o tm] Ht H; simpl in Ht; subst t.
+  destruct H as [[-> ->] | ([k m kd] & -> & Hk & Hex)].
+  - destruct backup, b as [c|]; reflexivity.
+  - unfold is_exception in Hex; simpl in Hk, Hex.
+    destruct backup, b as [c|]; vm_compute in Hk; subst k;
+      destruct ok, m, kd; try (exfalso; apply Hex; reflexivity); reflexivity.
+Qed.
+
+(* without --backup, ONE failing call loses the file only when it is the
+   truncating open itself (raising after it truncated), or the dump interrupted
+   by something `except Exception` does not catch *)
+Lemma no_backup_single_fault_losses : forall f s,
+  get s Target = Some Orig ->
+  failed (o_status (save (CSet false false true) f s)) ->
+  ~ one_intact_copy (o_fs (save (CSet false false true) f s)) ->
+  exists ft, f = Some ft /\
+    ((at_k ft = 3 /\ f_mode ft = Mid) \/ (at_k ft = 4 /\ f_kind ft = FInterrupt)).
+Proof.
+  intros f [t b o tm] Ht Hf Hn; simpl in Ht; subst t.
+  destruct f as [[k m kd]|]; [|exfalso; apply Hf; reflexivity].
+  do 7 (destruct k as [|k];
+        [ destruct m, kd;
+          first [ exfalso; apply Hn; left; reflexivity
+                | exfalso; apply Hf; reflexivity
+                | eexists; split; [reflexivity|]; simpl; solve [auto] ] |]).
+  exfalso; apply Hf; reflexivity.
 Qed.
 
 (* ---- witnesses and the finite cross-check ------------------------------------------------ *)
@@ -468,28 +648,46 @@ Lemma merge_backup_of_nothing_witness :
     start_ok s /\ failed (o_status (merge_main i None s)) /\ o_fs (merge_main i None s) <> s.
 Proof.
   exists (mkmerge true true ToOverwrite true false [mkmfile true 1 (MCode 0); mkmfile true 1 (MCode 0)]
-                  None true (MCode 0) ROk 1), (init_fs false true false).
+                  None true (MCode 0) ROk 1 true), (init_fs false true false).
   split; [reflexivity|]; split; vm_compute; discriminate.
 Qed.
 
+(* yaml-set without --backup: the truncating open itself fails after truncating
+   (it is outside the try block): the file is lost by one failing call *)
 Lemma no_backup_no_promise_witness :
   exists (c : cfg) (f : fault) (s : fs),
     cfg_backup c = false /\ get s Target = Some Orig /\ ~ one_intact_copy (o_fs (save c (Some f) s)).
 Proof.
-  exists (CSet false false), (mkfault 4 Mid FOs), (init_fs true false false).
+  exists (CSet false false true), (mkfault 3 Mid FOs), (init_fs true false false).
   split; [reflexivity|]; split; [reflexivity|].
   vm_compute; intros [H|H]; discriminate H.
 Qed.
 
+(* a failed dump alone no longer loses it (dump_failure_restores); a second
+   failure inside the restore path does -- whether the first one was injected
+   or the dumper's own *)
+Lemma no_backup_second_fault_witness :
+  exists (f f2 : fault) (s : fs),
+    get s Target = Some Orig /\ dump_step_fails false true (Some f) s
+    /\ ~ one_intact_copy (o_fs (save2 (CSet false false true) (Some f) (Some f2) s))
+    /\ ~ one_intact_copy (o_fs (save (CSet false false false) (Some f2) s)).
+Proof.
+  exists (mkfault 4 Mid FOther), (mkfault 6 Mid FOs), (init_fs true false false).
+  split; [reflexivity|]; split.
+  { right; eexists; split; [reflexivity|]; split; [reflexivity | discriminate]. }
+  split; vm_compute; intros [H|H]; discriminate H.
+Qed.
+
 Definition all_bool := [true; false].
+Definition all_kinds := [FOs; FAssert; FOther; FInterrupt].
 Definition all_faults (n : nat) : list (option fault) :=
-  None :: flat_map (fun k => flat_map (fun m => map (fun kd => Some (mkfault k m kd)) [FOs; FAssert]) [Before; Mid]) (seq 0 n).
+  None :: flat_map (fun k => flat_map (fun m => map (fun kd => Some (mkfault k m kd)) all_kinds) [Before; Mid]) (seq 0 n).
 Definition finite_domain_check : bool :=
-  forallb (fun json => forallb (fun stale => forallb (fun f =>
-     one_copy (o_fs (save (CSet true json) f (init_fs true stale false)))
+  forallb (fun json => forallb (fun ok => forallb (fun stale => forallb (fun f =>
+     forallb (fun f2 => one_copy (o_fs (save2 (CSet true json ok) f f2 (init_fs true stale false)))) (all_faults 16)
      && one_copy (o_fs (save (CRotate true true) f (init_fs true stale false)))
      && forallb (fun n => forallb (fun j =>
-           one_copy (o_fs (save (CMerge ToOverwrite true j n) f (init_fs true stale false)))) all_bool) [0; 1; 2; 3])
-     (all_faults 16)) all_bool) all_bool.
+           one_copy (o_fs (save (CMerge ToOverwrite true j n ok) f (init_fs true stale false)))) all_bool) [0; 1; 2; 3])
+     (all_faults 16)) all_bool) all_bool) all_bool.
 Lemma finite_domain_check_true : finite_domain_check = true.
 Proof. vm_compute. reflexivity. Qed.
